@@ -8,8 +8,10 @@ Local Open Scope string_scope.
 Local Open Scope list_scope.
 
 (** Every navigation primitive ([[]], get, parent, file, items, values, visititems,
-    create/require results, query results, restrict) yields flags that include the
-    flags of the node it was applied to ... *)
+    create/require results, query results, restrict, and -- under the DEMANDED rule --
+    [.node] / [.node.file] / [.node.parent] of the items of meta.values() / meta.items())
+    yields flags that include the flags of the node it was applied to ...
+    All closure theorems below quantify over chains of these primitives, [PMeta] included. *)
 Theorem C15_flags_monotone : forall t n p t' n',
   nav1 t n p = NOk t' n' -> f_le (nfl n) (nfl n') = true.
 Proof. exact nav1_flags_monotone. Qed.
@@ -125,6 +127,47 @@ Theorem C15_pinned_so_chain_refuted :
 Proof. exact pinned_so_chain_refuted. Qed.
 Print Assumptions C15_pinned_so_chain_refuted.
 
+(** Metadata listings.  The code hands out the raw objects of the driver (rule
+    [nav_meta_pinned], recorded known finding); that rule violates the property: *)
+Theorem C15_pinned_meta_node_refuted :
+  exists t start,
+    ro (nfl start) = true /\
+    (exists t' n, nav1_pinned_meta t start (PMeta HNode) = NOk t' n /\
+                  ro (nfl n) = false /\ guard n ODsWrite = Passed /\ guard n (OAttr ASetItem) = Passed) /\
+    (exists t' n, nav1_pinned_meta t start (PMeta HFile) = NOk t' n /\
+                  guard n (OGrp GCreateGroup (mkP false ["x"])) = Passed) /\
+    (exists t' n, nav1_pinned_meta t start (PMeta HParent) = NOk t' n /\
+                  guard n (OGrp GCreateGroup (mkP false ["x"])) = Passed).
+Proof. exact pinned_meta_ro_refuted. Qed.
+Print Assumptions C15_pinned_meta_node_refuted.
+
+Theorem C15_pinned_meta_node_lo_refuted :
+  exists t start t' n,
+    lo (nfl start) = true /\ nstack start = [] /\
+    nav1_pinned_meta t start (PMeta HFile) = NOk t' n /\
+    is_prefix (npath start) (npath n) = false /\ lo (nfl n) = false /\
+    exists t'' m, nav1 t' n (PGetItem (mkP true ["top"])) = NOk t'' m.
+Proof. exact pinned_meta_lo_refuted. Qed.
+Print Assumptions C15_pinned_meta_node_lo_refuted.
+
+(** The demanded rule: only the object node itself is handed out, with the owner's flags,
+    as a local root of its own ([file] and [parent] are refused on it). *)
+Theorem C15_meta_demanded : forall t n h t' m,
+  nav_meta t n h = NOk t' m ->
+  h = HNode /\ t' = t /\ npath m = npath n /\ f_le (nfl n) (nfl m) = true /\
+  lo (nfl m) = true /\ nstack m = [].
+Proof. exact meta_demanded. Qed.
+Print Assumptions C15_meta_demanded.
+
+(** Both rules refuse a listing exactly under skel_only and yield nothing without objects. *)
+Theorem C15_meta_rules_same_refusals : forall t n h,
+  (nav_meta_pinned t n h = NRefused <-> so (nfl n) = true) /\
+  (so (nfl n) = true -> nav_meta t n h = NRefused) /\
+  (so (nfl n) = false -> has_objs t (npath n) = false ->
+     nav_meta t n h = NErr /\ nav_meta_pinned t n h = NErr).
+Proof. exact meta_rules_same_refusals. Qed.
+Print Assumptions C15_meta_rules_same_refusals.
+
 (** ** Non-vacuity: concrete chains that do reach nodes, and operations that are
     applicable to them. *)
 
@@ -159,7 +202,7 @@ Proof. vm_compute. reflexivity. Qed.
 
 Example ex_create_changes_tree :
   nav demo_tree (g_start f_none) [PCreate CreateGroup (mkP false ["new"; "sub"])]
-  = NOk (demo_tree ++ [mkE ["g"; "new"] KGroup false; mkE ["g"; "new"; "sub"] KGroup false])
+  = NOk (demo_tree ++ [mkE ["g"; "new"] KGroup false false; mkE ["g"; "new"; "sub"] KGroup false false])
         (mkN ["g"; "new"; "sub"] KGroup f_none []).
 Proof. vm_compute. reflexivity. Qed.
 
@@ -181,4 +224,22 @@ Example ex_lo_refused :
   map (nav1 demo_tree (g_start (mkF false true false)))
       [PParent; PFile; PGetItem (mkP true ["top"]); PCreate RequireGroup (mkP true ["g"])]
   = [NRefused; NRefused; NRefused; NRefused].
+Proof. vm_compute. reflexivity. Qed.
+
+(** A chain through a metadata listing under the demanded rule: the object node of [/g] is
+    read_only + local_only, dataset write and attribute write on it are refused, and nothing
+    leads up from it. *)
+Example ex_meta_demanded :
+  nav demo_tree (g_start (mkF true false false)) [PGetItem (mkP false ["h"]); PParent; PMeta HNode]
+  = NOk demo_tree (mkN ["g"] KDataset (mkF true true false) []) /\
+  map (guard (mkN ["g"] KDataset (mkF true true false) [])) [ODsWrite; OAttr ASetItem; ODsRead]
+  = [Refused; Refused; Passed] /\
+  map (nav1 demo_tree (g_start (mkF true false false))) [PMeta HFile; PMeta HParent]
+  = [NRefused; NRefused].
+Proof. vm_compute. repeat split. Qed.
+
+Example ex_copy_nodes :
+  map (fun f => guard (g_start f) OCopyNodes)
+      [f_none; mkF true false false; mkF false true false; mkF false false true]
+  = [Passed; Refused; Passed; Passed].
 Proof. vm_compute. reflexivity. Qed.
